@@ -286,18 +286,58 @@ def rule_order(ctx, rep):
                      % (starts, seq, want, (' (%s)' % problems) if problems else ''), loc(unit_ft, ft.node))
 
 
+def rule_parse_span(ctx, rep):
+    """The span inside which other candidates nest is the token class's parse group - for classes that parse
+    their content and for classes that keep it verbatim alike (a candidate overlapping a delimiter is a conflict,
+    settled by precedence, not something inside the token). find_tokens, interpreted over mock token types, must
+    give every candidate parse_start / parse_end = match.start / end(parse_group)."""
+    model = ctx.model
+    rule = 'R-PARSE-SPAN'
+    rep.rule(rule, 'a candidate\'s parse span is its match\'s span of the class\'s parse group, whatever parse_inner says')
+    ft = model.func('span_tokenizer.find_tokens')
+    n = 0
+    for parse_inner in (True, False):
+        for group in (0, 1, 2):
+            rep.instance(rule)
+            it = Interp(model, loop_bound=6)
+            it.reset_run(Oracle())
+            types = [MockSpanType(0, [3], parse_inner, group)]
+            try:
+                got = it.call_function(ft, [Unknown('string'), types, Unknown('fallback')], {})
+                t = got[0] if isinstance(got, list) and got else None
+                span = (t.attrs.get('parse_start'), t.attrs.get('parse_end')) if t is not None else None
+            except Raised as r:
+                span = 'raises %s' % r.exc.kind
+            want = (3, 4) if group == 0 else (('group-start', 0, 3, group), ('group-end', 0, 3, group))
+            ok = span == want
+            n += 1
+            rep.obligation(rule, ok, {'parse_inner': parse_inner, 'parse_group': group, 'parse span': repr(span)})
+            if not ok:
+                rep.find(rule, 'span_tokenizer.ParseToken.__init__', 'span(parse_inner=%s)' % parse_inner,
+                         'for a token class with parse_inner=%s and parse_group=%d the candidate\'s parse span is %r, not the '
+                         'span of that group: candidates that overlap its delimiters are then treated as lying inside it (or the '
+                         'reverse) instead of being settled by precedence' % (parse_inner, group, span),
+                         loc(model.unit_of(ft), ft.node))
+    rep.floor(rule, n, 6)
+
+
 class MockSpanType(AbstractValue):
     """An abstract span token type: find() yields matches with the given start offsets."""
 
-    def __init__(self, i, starts):
+    def __init__(self, i, starts, parse_inner=None, parse_group=None):
         self.i = i
         self.starts = starts
+        self.parse_inner, self.parse_group = parse_inner, parse_group
         self.prov = ('mock-span-type', i)
 
     def abs_getattr(self, interp, name):
         if name == 'find':
             from ..domains import _AbsBound
             return _AbsBound(self, name)
+        if name == 'parse_inner' and self.parse_inner is not None:
+            return self.parse_inner
+        if name == 'parse_group' and self.parse_group is not None:
+            return self.parse_group
         return Unknown('type%d.%s' % (self.i, name))
 
     def abs_method(self, interp, name, args, kwargs):
@@ -318,9 +358,9 @@ class MockSpanMatch(AbstractValue):
     def abs_method(self, interp, name, args, kwargs):
         n = args[0] if args else 0
         if name == 'start':
-            return self.s0 if n == 0 else Unknown('start(%r)' % (n,))
+            return self.s0 if n == 0 else ('group-start', self.owner.i, self.s0, n)
         if name == 'end':
-            return self.s0 + 1 if n == 0 else Unknown('end(%r)' % (n,))
+            return self.s0 + 1 if n == 0 else ('group-end', self.owner.i, self.s0, n)
         return Unknown('match.%s' % name)
 
 
@@ -510,8 +550,12 @@ def run(ctx):
     rule_relation(ctx, rep)
     rule_eval(ctx, rep)
     rule_order(ctx, rep)
+    rule_parse_span(ctx, rep)
     rule_tile(ctx, rep)
     from . import c11
     c11.rule_registry(ctx, rep, as_rule='R-SCOPE')
+    # the one-call entry point uses the renderer as a context manager, so its tokens are scoped like any other's
+    from . import c15
+    c15.rule_markdown_entry(ctx, rep, 'R-SCOPE-ENTRY', 'markdown() enters the renderer it instantiates and leaves it on every path')
     rep.assume('candidate matches have start < end and start <= parse_start <= parse_end <= end')
     rep.assume('sorted() is stable (language guarantee)')
